@@ -7,6 +7,7 @@ import FxpVerif.Model.Strings
 import FxpVerif.Model.Bits
 import FxpVerif.Model.Infer
 import FxpVerif.Model.Scale
+import FxpVerif.Model.Reduce
 /-! Line-protocol helpers for the correspondence driver (core Lean only). -/
 namespace Fxp.Proto
 
